@@ -90,20 +90,28 @@ Definition tgt_drain (now : N) (g : target) : target :=
 Definition tgt_exit (now : N) (r : reason) (o : option nat) (g : target) : target :=
   mkTgt Stopped [] None None (g_log g) (Some (r, o, now)) (note_left now g).
 
-(* one iteration of the actor loop: signal > stop > message (listen_in_priority) *)
+(* leaving the loop gracefully (stop, end of drain): status Stopping, post_stop starts.  The
+   ports stay open -- queued messages are only dropped when the actor finishes -- and the
+   reason is kept in the stop slot until then *)
+Definition tgt_stopping (now : N) (r : reason) (o : option nat) (g : target) : target :=
+  mkTgt Stopping (g_mbox g) (Some (r, o)) (g_kill g) (g_log g) (g_exit g) (note_left now g).
+
+(* one iteration of the actor loop: signal > stop > message (listen_in_priority); a kill ends
+   the actor at once (no post_stop), also while post_stop is running *)
 Definition tgt_poll (now : N) (g : target) : target :=
   match g_status g with
   | Stopped => g
   | Starting => g          (* parked in pre_start: the loop is not running yet *)
+  | Stopping => match g_kill g with Some o => tgt_exit now RKilled o g | None => g end
   | _ =>
     match g_kill g with
     | Some o => tgt_exit now RKilled o g
     | None =>
       match g_stop g with
-      | Some (r, o) => tgt_exit now r o g
+      | Some (r, o) => tgt_stopping now r o g
       | None =>
         match g_mbox g with
-        | MDrainMark :: _ => tgt_exit now RDrained None g
+        | MDrainMark :: _ => tgt_stopping now RDrained None g
         | MTick i k :: rest =>
             mkTgt (g_status g) rest (g_stop g) (g_kill g) (g_log g ++ [(i, k, now)]) (g_exit g) (g_left g)
         | [] => g
@@ -112,10 +120,18 @@ Definition tgt_poll (now : N) (g : target) : target :=
     end
   end.
 
+(* post_stop returns: the actor finishes (Stopped, supervisor told the reason, ports dropped) *)
+Definition tgt_post_stop (now : N) (g : target) : target :=
+  match g_status g, g_stop g with
+  | Stopping, Some (r, o) => tgt_exit now r o g
+  | _, _ => g
+  end.
+
 Definition tgt_enabled (g : target) : bool :=
   match g_status g with
   | Stopped => false
   | Starting => false
+  | Stopping => match g_kill g with Some _ => true | None => false end
   | _ => match g_kill g, g_stop g, g_mbox g with
          | None, None, [] => false
          | _, _, _ => true
@@ -163,6 +179,7 @@ Inductive label :=
 | Abort (i : nat)          (* JoinHandle::abort on timer i *)
 | TgtPoll                  (* one iteration of the target's loop *)
 | TgtStart                 (* the target's pre_start / post_start return: Starting -> Running *)
+| TgtPostStop              (* the target's post_stop returns: Stopping -> Stopped *)
 | TStop (r : reason)       (* somebody calls target.stop(r) *)
 | TKill                    (* somebody calls target.kill() *)
 | TDrain                   (* somebody calls target.drain() *)
@@ -251,6 +268,7 @@ Definition step (s : state) (l : label) : state :=
       end
   | TgtPoll => mkState (now s) (tgt_poll (now s) (tgt s)) (timers s) (effs s)
   | TgtStart => mkState (now s) (tgt_start (tgt s)) (timers s) (effs s)
+  | TgtPostStop => mkState (now s) (tgt_post_stop (now s) (tgt s)) (timers s) (effs s)
   | TStop r => mkState (now s) (tgt_stop r None (tgt s)) (timers s) (effs s)
   | TKill => mkState (now s) (tgt_kill None (tgt s)) (timers s) (effs s)
   | TDrain => mkState (now s) (tgt_drain (now s) (tgt s)) (timers s) (effs s)
@@ -309,7 +327,8 @@ Inductive op :=
 | OSettle
 | OAdv (dt : N)
 | OProbe
-| OOpen.                  (* release the gate in the target's pre_start *)
+| OOpen                   (* release the gate in the target's pre_start *)
+| OPOpen.                 (* release the gate in the target's post_stop *)
 
 Inductive task := TT (i : nat) | TA.
 Definition task_eqb (a b : task) : bool :=
@@ -318,9 +337,10 @@ Definition in_q (x : task) (q : list task) : bool := existsb (task_eqb x) q.
 Definition push (x : task) (q : list task) : list task := if in_q x q then q else q ++ [x].
 
 (* driver state: model state, run queue, labels executed so far (reversed) *)
-Record drv := mkDrv { d_s : state; d_q : list task; d_ls : list label }.
+(* d_pg: the gate in the target's post_stop is open (post_stop returns as soon as it runs) *)
+Record drv := mkDrv { d_s : state; d_q : list task; d_ls : list label; d_pg : bool }.
 
-Definition dstep (d : drv) (l : label) : drv := mkDrv (step (d_s d) l) (d_q d) (l :: d_ls d).
+Definition dstep (d : drv) (l : label) : drv := mkDrv (step (d_s d) l) (d_q d) (l :: d_ls d) (d_pg d).
 
 Fixpoint run_timer (fuel : nat) (i : nat) (d : drv) : drv :=
   match fuel with
@@ -328,14 +348,23 @@ Fixpoint run_timer (fuel : nat) (i : nat) (d : drv) : drv :=
   | S f => if enabled (d_s d) i then run_timer f i (dstep d (Poll i)) else d
   end.
 
+(* what the target's task does next, if anything *)
+Definition tgt_next (d : drv) : option label :=
+  let g := tgt (d_s d) in
+  if tgt_enabled g then Some TgtPoll
+  else match g_status g with
+       | Stopping => if d_pg d then Some TgtPostStop else None
+       | _ => None
+       end.
+
 Fixpoint run_tgt (fuel : nat) (d : drv) : drv :=
   match fuel with
   | O => d
-  | S f => if tgt_enabled (tgt (d_s d)) then run_tgt f (dstep d TgtPoll) else d
+  | S f => match tgt_next d with Some l => run_tgt f (dstep d l) | None => d end
   end.
 
 Definition wake_tgt (d : drv) : drv :=
-  if tgt_enabled (tgt (d_s d)) then mkDrv (d_s d) (push TA (d_q d)) (d_ls d) else d.
+  match tgt_next d with Some _ => mkDrv (d_s d) (push TA (d_q d)) (d_ls d) (d_pg d) | None => d end.
 
 Definition FUEL : nat := 400.
 
@@ -345,8 +374,8 @@ Fixpoint settle (tf : nat) (fuel : nat) (d : drv) : drv :=
   | S f =>
       match d_q d with
       | [] => d
-      | TT i :: q => settle tf f (wake_tgt (run_timer tf i (mkDrv (d_s d) q (d_ls d))))
-      | TA :: q => settle tf f (run_tgt tf (mkDrv (d_s d) q (d_ls d)))
+      | TT i :: q => settle tf f (wake_tgt (run_timer tf i (mkDrv (d_s d) q (d_ls d) (d_pg d))))
+      | TA :: q => settle tf f (run_tgt tf (mkDrv (d_s d) q (d_ls d) (d_pg d)))
       end
   end.
 
@@ -371,7 +400,7 @@ Fixpoint fired_list (t : N) (i : nat) (tms : list timer) : list (nat * N) :=
 Definition wake_fired (d : drv) : drv :=
   mkDrv (d_s d)
         (fold_left (fun q x => push (TT (fst x)) q) (fired_list (now (d_s d)) 0 (timers (d_s d))) (d_q d))
-        (d_ls d).
+        (d_ls d) (d_pg d).
 
 (* one probe: (time, target stopped?, is_finished of every handle) *)
 Definition probe_of (s : state) : N * bool * list bool :=
@@ -384,7 +413,7 @@ Definition exec_op_gen (tf f : nat) (dp : drv * list (N * bool * list bool)) (o 
   match o with
   | OMk k dur =>
       let d' := dstep d (Mk k dur) in
-      (mkDrv (d_s d') (push (TT (length (timers (d_s d)))) (d_q d')) (d_ls d'), pr)
+      (mkDrv (d_s d') (push (TT (length (timers (d_s d)))) (d_q d')) (d_ls d') (d_pg d'), pr)
   | OAbort i => (dstep d (Abort i), pr)
   | OStop r => (wake_tgt (dstep d (TStop r)), pr)
   | OKill => (wake_tgt (dstep d TKill), pr)
@@ -395,12 +424,13 @@ Definition exec_op_gen (tf f : nat) (dp : drv * list (N * bool * list bool)) (o 
       (wake_fired d1, pr)
   | OProbe => let d1 := settle tf f d in (d1, pr ++ [probe_of (d_s d1)])
   | OOpen => (wake_tgt (dstep d TgtStart), pr)
+  | OPOpen => (wake_tgt (mkDrv (d_s d) (d_q d) (d_ls d) true), pr)
   end.
 
 Definition exec_op := exec_op_gen FUEL FUEL.
 
-Definition exec (parked : bool) (ops : list op) : drv * list (N * bool * list bool) :=
-  fold_left exec_op ops (mkDrv (init 0 parked) [] [], []).
+Definition exec (parked gated : bool) (ops : list op) : drv * list (N * bool * list bool) :=
+  fold_left exec_op ops (mkDrv (init 0 parked) [] [] (negb gated), []).
 
 (* ---------- observations (printed in the same syntax by the Rust harness) ---------- *)
 Inductive hres := HOk | HErr | HUnit | HCancelled | HPending | HPanic.
@@ -415,14 +445,15 @@ Record obs := mkObs {
   o_log : list (nat * N * N);                 (* handled timer messages (tid, k, virtual ns) *)
   o_res : list hres;                          (* JoinHandle outputs at the end *)
   o_exit : option (reason * N);               (* target's exit reason and time *)
-  o_probes : list (N * bool * list bool)
+  o_probes : list (N * bool * list bool);
+  o_left : option N                           (* when the target left the active states *)
 }.
 
-Definition observe (parked : bool) (ops : list op) : obs :=
-  let (d, pr) := exec parked (ops ++ [OSettle]) in
+Definition observe (parked gated : bool) (ops : list op) : obs :=
+  let (d, pr) := exec parked gated (ops ++ [OSettle]) in
   let s := d_s d in
   mkObs (g_log (tgt s)) (map hres_of (timers s))
-        (match g_exit (tgt s) with Some (r, _, t) => Some (r, t) | None => None end) pr.
+        (match g_exit (tgt s) with Some (r, _, t) => Some (r, t) | None => None end) pr (g_left (tgt s)).
 
 (* ---------- the property as an executable oracle over a scenario and what was observed
    (used on the IMPLEMENTATION's observations; it only uses the scenario's own arithmetic,
@@ -572,7 +603,7 @@ Definition check_exit (ops : list op) (tis : list tinfo) (ex : option (reason * 
 (* handle results: Err / Ok only from send_after; Err means nothing was handled;
    a target that exited strictly before the period elapsed yields Err (unless aborted);
    nothing is handled after the exit *)
-Definition check_res (log : list (nat * N * N)) (ex : option (reason * N)) (i : nat) (ti : tinfo) (r : hres) : bool :=
+Definition check_res (log : list (nat * N * N)) (ex : option (reason * N)) (lf : option N) (i : nat) (ti : tinfo) (r : hres) : bool :=
   (match r with
    | HOk => kind_eqb (ti_kind ti) KAfter
    | HErr => kind_eqb (ti_kind ti) KAfter && Nat.eqb (length (ks_of i log)) 0
@@ -585,20 +616,27 @@ Definition check_res (log : list (nat * N * N)) (ex : option (reason * N)) (i : 
       | Some (_, te), KAfter, HOk => ti_born ti + ti_dur ti <=? te
       | _, _, _ => true
       end)
+  (* a target that has left the running states (Draining, Stopping with post_stop still running,
+     Stopped) accepts nothing: send_after can only report Ok if its period had elapsed by then *)
+  && (match lf, ti_kind ti, r with
+      | Some tl, KAfter, HOk => ti_born ti + ti_dur ti <=? tl
+      | _, _, _ => true
+      end)
   && is_prefix_from 1 (ks_of i log).
 
-Fixpoint check_all_res (log : list (nat * N * N)) (ex : option (reason * N)) (i : nat)
+Fixpoint check_all_res (log : list (nat * N * N)) (ex : option (reason * N)) (lf : option N) (i : nat)
          (tis : list tinfo) (rs : list hres) : bool :=
   match tis, rs with
   | [], [] => true
-  | ti :: tis', r :: rs' => check_res log ex i ti r && check_all_res log ex (S i) tis' rs'
+  | ti :: tis', r :: rs' => check_res log ex lf i ti r && check_all_res log ex lf (S i) tis' rs'
   | _, _ => false
   end.
 
-(* interval tasks end within one period (rounded to the wheel granularity) of the exit *)
-Definition check_probe (tis : list tinfo) (ex : option (reason * N)) (p : N * bool * list bool) : bool :=
-  match p, ex with
-  | (tp, _, flags), Some (_, te) =>
+(* interval tasks end within one period (rounded to the wheel granularity) of the moment the
+   target left the active states *)
+Definition check_probe (tis : list tinfo) (lf : option N) (p : N * bool * list bool) : bool :=
+  match p, lf with
+  | (tp, _, flags), Some te =>
       forallb (fun x => match x with
                         | (ti, fin) =>
                             if kind_eqb (ti_kind ti) KInterval && (te + ceil_ms (ti_dur ti) <=? tp)
@@ -612,6 +650,6 @@ Definition check_C12 (parked : bool) (ops : list op) (o : obs) : bool :=
   let tis := scan ops 0 [] in
   forallb (check_entry (if parked then open_time ops 0 else None) (time_points ops 0) tis (o_log o)) (o_log o)
   && forallb (fun e => match o_exit o with Some (_, te) => snd e <=? te | None => true end) (o_log o)
-  && check_all_res (o_log o) (o_exit o) 0 tis (o_res o)
+  && check_all_res (o_log o) (o_exit o) (o_left o) 0 tis (o_res o)
   && check_exit ops tis (o_exit o)
-  && forallb (check_probe tis (o_exit o)) (o_probes o).
+  && forallb (check_probe tis (o_left o)) (o_probes o).
